@@ -25,6 +25,7 @@ Record sstep := mk_sstep {
   ss_states0 : list (path * bool);
   ss_clean : bool;                    (* no edit of this case is in the way of a tree path *)
   ss_res : result;
+  ss_trace : list (N * path);         (* the real file-system calls of the call, in order *)
   ss_disk1 : fs;
   ss_states1 : list (path * bool);
   ss_tree_same : bool;                (* the working copy's tree id is unchanged *)
@@ -91,7 +92,8 @@ Definition pre_ok (c : case) : bool :=
 Definition sstep_corr (s : sstep) : bool :=
   let '(o, w') := set_sparse rn (ss_disk0 s) (mkWc (ss_tree s) (ss_states0 s) (ss_old s)) (ss_new s) in
   result_eqb (o_res o) (ss_res s) && fs_eqb (o_fs o) (ss_disk1 s)
-  && states_eqb (o_states o) (ss_states1 s) && forallb ev_safe (o_trace o).
+  && states_eqb (o_states o) (ss_states1 s) && forallb ev_safe (o_trace o)
+  && list_eqb (pair_eqb N.eqb path_eqb) (visible_trace (o_trace o)) (ss_trace s).
 
 (** Known-finding class "sparse-removal-skipped-assert": the removal pass of
     set_sparse_patterns skips a path (a parent component of a file leaving the patterns is
